@@ -8,8 +8,18 @@ exact for raw counts and everything computed from identical counts, 2^-48 relati
 weight factor that is not a power of two; c13_additive_case for splits).  Rotations move the
 unit vectors by rounding errors, so scenarios in which some pair lies within 2^-40 (relative)
 of a scale limit, before or after the rotation, are skipped and counted.
+
+Every comparison is made twice: on the results as measured and on the results after the round trip
+users make between measuring and sampling (CorrFunc.to_file -> CorrFunc.from_file, then sample() /
+RedshiftData.from_corrfuncs), both runs of a pair taking the same route.  The counts read back are
+also held against the model of the stored form (Model/Invariance.v: roundtrip any_nonzero, which
+Props/C13.v proves to be the identity and to commute with any weight factor).  Weight factors span
+2^-60 .. 2^60 and 1e-10 .. 1e10 on any one of the three catalogs, and a third of the scenarios
+start from catalogs whose weights are far from 1 themselves.  Amplitudes that are not numbers
+(nan = 0/0 in an empty bin, inf) are compared as well: same non-number in the same place.
 """
 import math
+import os
 import shutil
 from fractions import Fraction
 
@@ -21,9 +31,14 @@ from props.c01 import offset, cluster, scale_of, to_int, thr2, chord, d2, near_t
 
 ALLOWED_AXIOMS = []
 TRUSTED = ["rotation matrices are applied by the harness in float64; near ties are filtered with exact integer chords of the implementation's unit vectors"]
-ASSUMPTIONS = ["weights are dyadic; weight factors 2^k are exact, factor 3 is compared to 2^-48 relative"]
-RULE = ("cases = (base scenario, transformation in {rotation, row shuffle, centre permutation, weight factor, 2-split}); distinct by "
-        "scenario seed + transformation parameters; non-trivial when the base measurement has non-zero counts")
+ASSUMPTIONS = ["weights are dyadic (small set times a power of two per catalog); weight factors 2^k (|k| <= 60) are exact, other factors "
+               "(3, 1e-10, 1e-8, 1e10, m*10^u) are compared to 2^-40 of the largest entry wherever the base run holds a number",
+               "where the base run (exact sums of dyadic numbers) holds 0/0 or x/0 - a jackknife sample that leaves nothing in a bin - the twin after "
+               "an inexact factor is not constrained: the code forms leave-one-out sums as total - row - column + diagonal, whose exact 0 becomes a "
+               "rounding residual (seen: norm 2.6e-23 instead of 0, nan turns into inf); counted as degenerate_sample_differs_after_inexact_factor"]
+RULE = ("cases = (base scenario, transformation in {rotation, row shuffle, centre permutation, weight factor on one of ref/unk/rand, 2-split}), "
+        "each compared as measured and after CorrFunc.to_file/from_file; distinct by scenario seed + transformation parameters; "
+        "non-trivial when the base measurement has non-zero counts")
 HEADER = "From Verif Require Import Prelude Invariance.\nOpen Scope Q_scope.\n"
 
 
@@ -103,14 +118,78 @@ def nz(res, perm=None):
     from yaw.redshifts import RedshiftData
     out = []
     for cr, au in zip(res["cross"], res["auto"]):
-        rd = RedshiftData.from_corrfuncs(cr, ref_corr=au)
-        smp = rd.samples if perm is None else rd.samples[perm]
-        out.extend(float(x) for x in np.concatenate([rd.data.ravel(), smp.ravel()]))
+        # with the reference bias correction (sqrt of the autocorrelation amplitude: often not a number on catalogs
+        # this small) and without it (numbers wherever the cross-correlation amplitudes are)
+        for rd in (RedshiftData.from_corrfuncs(cr, ref_corr=au), RedshiftData.from_corrfuncs(cr)):
+            smp = rd.samples if perm is None else rd.samples[perm]
+            out.extend(float(x) for x in np.concatenate([rd.data.ravel(), smp.ravel(), np.asarray(rd.covariance).ravel()]))
     return out
 
 
 def finite(xs):
     return all(math.isfinite(x) for x in xs)
+
+
+def pattern(xs):
+    """0 finite, 1 nan, 2 +inf, 3 -inf"""
+    return [0 if math.isfinite(x) else 1 if math.isnan(x) else 2 if x > 0 else 3 for x in xs]
+
+
+def numbers(xs):
+    return [x if math.isfinite(x) else 0.0 for x in xs]
+
+
+def cmp_term(mode, b, t):
+    """amplitudes / samples / covariances of two runs: values and the places of the non-numbers.
+    mode: "exact" (bit for bit, same non-numbers), "scaled" (2^-40 of the largest entry, same non-numbers: sums of dyadic
+    numbers taken in another order), "rounded" (2^-40 of the largest entry wherever the base run holds a number: after a
+    factor that is not a power of two)"""
+    args = "%s %s %s %s" % (fq.nlist(pattern(b)), fq.nlist(pattern(t)), fq.qlist(numbers(b)), fq.qlist(numbers(t)))
+    return {"exact": "c13_case_np true ", "scaled": "c13_case_scaled_np ", "rounded": "c13_case_rounded_np "}[mode] + args
+
+
+def through_files(ctx, res, tag):
+    """the same measurement after CorrFunc.to_file / CorrFunc.from_file (what users sample from)"""
+    import yaw
+    out = dict(cats=res["cats"])
+    for key in ("cross", "auto"):
+        got = []
+        for i, cf in enumerate(res[key]):
+            path = os.path.join(ctx.workdir, "cf_%s_%s%d.hdf" % (tag, key, i))
+            if os.path.exists(path):
+                os.remove(path)
+            cf.to_file(path)
+            got.append(yaw.CorrFunc.from_file(path))
+            os.remove(path)
+        out[key] = got
+    return out
+
+
+def count_rows(res):
+    """one row per (pair-count table, patch pair): the counts in every bin"""
+    rows = []
+    for cf in res["cross"] + res["auto"]:
+        for kind in ("dd", "dr", "rd", "rr"):
+            nc = getattr(cf, kind)
+            if nc is not None:
+                c = nc.counts.counts
+                rows.extend([float(x) for x in c[:, i, j]] for i in range(c.shape[1]) for j in range(c.shape[2]))
+    return rows
+
+
+def observe(res, perm=None):
+    return dict(counts=flat_counts(res["cross"] + res["auto"]),
+                samp=flat_sampled(res["cross"] + res["auto"], perm),
+                nz=nz(res, perm))
+
+
+# weight factors far from 1: exact ones (powers of two) and others
+FAR = [("2^-40", 2.0 ** -40), ("1e-10", 1e-10), ("2^20", 2.0 ** 20), ("2^-27", 2.0 ** -27),
+       ("1e10", 1e10), ("2^-20", 2.0 ** -20), ("1e-8", 1e-8), ("2^40", 2.0 ** 40)]
+
+
+def is_pow2(k):
+    return math.frexp(k)[0] == 0.5
 
 
 def ties(res, cfg, edges):
@@ -145,23 +224,48 @@ def run(ctx):
     import yaw
     rng = ctx.rng
     impl.set_threads(1)
-    terms, metas = [], []
+    terms, index, cases = [], {}, []
     edges = [0.2, 0.4, 0.6]
     zs = [0.25, 0.3, 0.45, 0.5, 0.55]
     np.seterr(all="ignore")
+    ROUTES = (("", ""), ("file", "-after-file-roundtrip"))
+
+    def add(term, cid, meta, sig, what):
+        # the same term (e.g. what was read back from a file is bit for bit what was in memory) is evaluated once
+        i = index.get(term)
+        if i is None:
+            i = index[term] = len(terms)
+            terms.append(term)
+        else:
+            ctx.bump("term_shared_with_earlier_case")
+        cases.append((i, cid, meta, sig, what))
+
+    def refused(kind, cid, meta, route, exc):
+        ctx.fail("c13-%s-twin-refused%s" % (kind, dict(ROUTES)[route]),
+                 "the transformed twin of an accepted measurement raises %s: %s" % (type(exc).__name__, str(exc)[:200]),
+                 meta, case=cid)
+
     for sc in range(ctx.n(14, 80)):
         npatch = rng.choice([3, 4])
         unit = rng.choice(["arcmin", "kpc"])
         rmax = 40.0 if unit == "arcmin" else 12000.0
         cfg = yaw.Configuration.create(rmin=rmax / 8, rmax=rmax, unit=unit, edges=edges, max_workers=1)
         cents = [offset(40.0, 10.0, k * 0.9, (k % 2) * 0.5) for k in range(npatch)]
+        # the weights of a catalog need not be of order one: every third scenario starts from catalogs whose
+        # weights carry a power of two each (exact, so every comparison stays as sharp as before)
+        if sc % 3 == 1:
+            bexp = {c: rng.choice([-40, -27, -20, 0, 20, 40]) for c in ("ref", "unk", "rand")}
+        else:
+            bexp = {"ref": 0, "unk": 0, "rand": 0}
+        ctx.bump("base_weights:%s" % ("order-one" if not any(bexp.values()) else "far-from-one"))
 
-        def sample(n, with_z):
+        def sample(n, with_z, e):
             pts = [p for k in range(npatch) for p in cluster(rng, cents[k][0], cents[k][1], n, 0.4)]
-            w = [rng.randrange(1, 9) / 2.0 for _ in pts]
+            w = [rng.randrange(1, 9) / 2.0 * 2.0 ** e for _ in pts]
             z = [rng.choice(zs) for _ in pts] if with_z else None
             return pts, w, z
-        base = dict(cents=cents, ref=sample(7, True), unk=sample(6, False)[:2], rand=sample(7, True))
+        base = dict(cents=cents, ref=sample(7, True, bexp["ref"]), unk=sample(6, False, bexp["unk"])[:2],
+                    rand=sample(7, True, bexp["rand"]))
         try:
             rb = measure(ctx, cfg, base, "b")
         except ValueError as e:
@@ -170,17 +274,44 @@ def run(ctx):
             raise
         if ties(rb, cfg, edges):
             ctx.bump("near_tie_skipped"); cleanup(rb); continue
-        b_counts, b_samp, b_nz = flat_counts(rb["cross"] + rb["auto"]), flat_sampled(rb["cross"] + rb["auto"]), nz(rb)
+        runs_b = {"": rb, "file": through_files(ctx, rb, "b")}
+        ob = {r: observe(runs_b[r]) for r in runs_b}
+        add("c13_store_case %s %s" % (fq.qmat(count_rows(rb)), fq.qmat(count_rows(runs_b["file"]))),
+            (sc, "base", "file"), dict(scenario=sc, base_weight_exponents=bexp), None, "base")
         nonzero = any(x != 0 for cf in rb["cross"] for x in cf.dd.counts.counts.ravel())
-        for tr in ["rot:random", "rot:to_pole", "rot:across_ra0", "shuffle", "centres", "weight:2", "weight:0.25", "weight:3", "split"]:
-            if ctx.quick() and rng.random() < 0.35:
+        for name in ("samp", "nz"):
+            fin = sum(1 for x in ob[""][name] if math.isfinite(x))
+            ctx.bump("base_entries:%s:numbers" % name, fin)
+            ctx.bump("base_entries:%s:non-numbers" % name, len(ob[""][name]) - fin)
+
+        # ---- the transformations of this scenario: (name, forced, parameters)
+        trs = [(t, False, None) for t in ("rot:random", "rot:to_pole", "rot:across_ra0", "shuffle", "centres")]
+        trs += [("weight:unk:%s" % lab, False, ("unk", k)) for lab, k in (("2", 2.0), ("0.25", 0.25), ("3", 3.0))]
+        far = [FAR[(2 * sc) % 8], FAR[(2 * sc + 1) % 8]] if ctx.quick() else FAR
+        for lab, k in far:
+            c = rng.choice(["ref", "unk", "rand"])
+            trs.append(("weight:%s:%s" % (c, lab), True, (c, k)))
+        for _ in range(ctx.n(1, 2)):
+            c = rng.choice(["ref", "unk", "rand"])
+            if rng.random() < 0.5:
+                e = rng.randint(-60, 60)
+                trs.append(("weight:%s:2^%d" % (c, e), True, (c, 2.0 ** e)))
+            else:
+                m, u = rng.choice([3.0, 0.7, 1.9, 5.5]), rng.randint(-12, 12)
+                trs.append(("weight:%s:%ge%d" % (c, m, u), True, (c, m * 10.0 ** u)))
+        trs.append(("split", False, None))
+
+        for tr, forced, par in trs:
+            if ctx.quick() and not forced and rng.random() < 0.35:
                 continue
             cid = (sc, tr)
+            kind = tr.split(":")[0]
             t = dict(base)
             perm = None
             exact = True
+            meta0 = dict(scenario=sc, transform=tr, unit=unit, npatch=npatch, base_weight_exponents=bexp)
             try:
-                if tr.startswith("rot"):
+                if kind == "rot":
                     R = rot_matrix(rng, tr.split(":")[1])
                     t = dict(cents=rotate(cents, R), ref=(rotate(base["ref"][0], R),) + base["ref"][1:],
                              unk=(rotate(base["unk"][0], R), base["unk"][1]), rand=(rotate(base["rand"][0], R),) + base["rand"][1:])
@@ -195,10 +326,13 @@ def run(ctx):
                         rng.shuffle(p)
                     t = dict(base, cents=[cents[i] for i in p])   # new patch j is old patch p[j]
                     perm = [p.index(i) for i in range(npatch)]      # old patch i is new patch perm[i]
-                elif tr.startswith("weight"):
-                    k = float(tr.split(":")[1])
-                    t = dict(base, unk=(base["unk"][0], [x * k for x in base["unk"][1]]))
-                    exact = k != 3.0
+                    meta0["perm"] = perm
+                elif kind == "weight":
+                    which, k = par
+                    old = base[which]
+                    t = dict(base, **{which: (old[0], [x * k for x in old[1]]) + tuple(old[2:])})
+                    exact = is_pow2(k)
+                    meta0.update(catalog=which, factor=float(k).hex(), factor_is_power_of_two=exact)
                 if tr == "split":
                     n = len(base["unk"][0]); mask = [rng.random() < 0.5 for _ in range(n)]
                     parts = []
@@ -211,12 +345,18 @@ def run(ctx):
                     if not ok:
                         for pr in parts: cleanup(pr)
                         continue
-                    whole = [float(x) for cf in rb["cross"] for x in cf.dd.counts.counts.ravel()]
-                    p1 = [float(x) for cf in parts[0]["cross"] for x in cf.dd.counts.counts.ravel()]
-                    p2 = [float(x) for cf in parts[1]["cross"] for x in cf.dd.counts.counts.ravel()]
-                    terms.append("c13_additive_case %s %s %s" % (fq.qlist(whole), fq.qlist(p1), fq.qlist(p2)))
-                    metas.append((cid, dict(scenario=sc, transform=tr, unit=unit), "c13-counts-not-additive",
-                                  "counts of a catalog split into two disjoint catalogs do not add up to the unsplit counts"))
+                    for route, suffix in ROUTES:
+                        rcid = cid + ((route,) if route else ())
+                        try:
+                            ps = parts if not route else [through_files(ctx, pr, "s%d" % i) for i, pr in enumerate(parts)]
+                        except Exception as e:   # the whole was written and read back, a part of it is not
+                            refused("split", rcid, dict(meta0, route=route or "memory"), route, e); continue
+                        whole = [float(x) for cf in runs_b[route]["cross"] for x in cf.dd.counts.counts.ravel()]
+                        p1 = [float(x) for cf in ps[0]["cross"] for x in cf.dd.counts.counts.ravel()]
+                        p2 = [float(x) for cf in ps[1]["cross"] for x in cf.dd.counts.counts.ravel()]
+                        add("c13_additive_case %s %s %s" % (fq.qlist(whole), fq.qlist(p1), fq.qlist(p2)), rcid,
+                            dict(meta0, route=route or "memory"), "c13-counts-not-additive" + suffix,
+                            "counts of a catalog split into two disjoint catalogs do not add up to the unsplit counts")
                     ctx.count(key=(sc, tr), nontrivial=nonzero, kind="split")
                     for pr in parts: cleanup(pr)
                     continue
@@ -225,47 +365,62 @@ def run(ctx):
                 if "contains no data" in str(e) or "do not match" in str(e):
                     ctx.bump("skipped_empty_patch"); continue
                 raise
-            if tr.startswith("rot") and ties(rt, cfg, edges):
+            if kind == "rot" and ties(rt, cfg, edges):
                 ctx.bump("near_tie_skipped"); cleanup(rt); continue
-            ctx.count(key=(sc, tr), nontrivial=nonzero, kind=tr.split(":")[0])
-            # ---- compare
-            if tr == "centres":
-                # patches relabelled: totals, amplitudes and covariance equal; samples permute accordingly
-                tb = [float(np.sum(nc.counts.counts[b])) for cf in rb["cross"] for nc in (cf.dd, cf.rd) for b in range(len(edges) - 1)]
-                tt = [float(np.sum(nc.counts.counts[b])) for cf in rt["cross"] for nc in (cf.dd, cf.rd) for b in range(len(edges) - 1)]
-                terms.append("c13_case true %s %s" % (fq.qlist(tb), fq.qlist(tt)))
-                metas.append((cid + ("totals",), dict(scenario=sc, transform=tr), "c13-relabel-changes-counts", "relabelling patches changes the total pair counts"))
-                ts = flat_sampled(rt["cross"] + rt["auto"], perm)
-                if finite(b_samp) and finite(ts):
-                    terms.append("c13_case_scaled %s %s" % (fq.qlist(b_samp), fq.qlist(ts)))
-                    metas.append((cid + ("samples",), dict(scenario=sc, transform=tr, perm=perm), "c13-relabel-changes-samples",
-                                  "relabelling patches changes amplitudes / covariance or does not permute the jackknife samples accordingly"))
-            elif tr.startswith("weight"):
-                ts, tn = flat_sampled(rt["cross"]), nz(rt)
-                bs = flat_sampled(rb["cross"])
-                if finite(bs) and finite(ts):
-                    terms.append(("c13_case true %s %s" if exact else "c13_case_scaled %s %s") % (fq.qlist(bs), fq.qlist(ts)))
-                    metas.append((cid + ("amp",), dict(scenario=sc, transform=tr), "c13-weight-scale-changes-amplitudes",
-                                  "multiplying all weights of one catalog by a positive constant changes the correlation amplitudes / covariance"))
-                if finite(b_nz) and finite(tn):
-                    terms.append(("c13_case true %s %s" if exact else "c13_case_scaled %s %s") % (fq.qlist(b_nz), fq.qlist(tn)))
-                    metas.append((cid + ("nz",), dict(scenario=sc, transform=tr), "c13-weight-scale-changes-nz",
-                                  "multiplying all weights of one catalog by a positive constant changes the redshift estimate"))
-            else:
-                tc = flat_counts(rt["cross"] + rt["auto"])
-                sig = "c13-rotation-changes-counts" if tr.startswith("rot") else "c13-row-order-changes-counts"
-                terms.append("c13_case true %s %s" % (fq.qlist(b_counts), fq.qlist(tc)))
-                metas.append((cid + ("counts",), dict(scenario=sc, transform=tr, unit=unit), sig,
-                              "a rigid rotation / a row permutation of all catalogs changes the raw pair counts or weight sums"))
-                ts, tn = flat_sampled(rt["cross"] + rt["auto"]), nz(rt)
-                if finite(b_samp) and finite(ts) and finite(b_nz) and finite(tn):
-                    terms.append("c13_case true %s %s" % (fq.qlist(b_samp + b_nz), fq.qlist(ts + tn)))
-                    metas.append((cid + ("samples",), dict(scenario=sc, transform=tr, unit=unit), sig.replace("counts", "amplitudes"),
-                                  "a rigid rotation / a row permutation changes amplitudes, redshift estimate or covariance"))
-            ctx.sample(dict(scenario=sc, transform=tr, unit=unit, npatch=npatch), limit=4)
+            ctx.count(key=(sc, tr), nontrivial=nonzero, kind=kind)
+            if kind == "weight":
+                ctx.bump("weight_factor:%s" % ("power-of-two" if exact else "other") + (":far" if abs(math.log2(par[1])) >= 20 else ":near"))
+            # ---- compare, as measured and after the file round trip (both runs of the pair take the same route)
+            for route, suffix in ROUTES:
+                rcid = cid + ((route,) if route else ())
+                meta = dict(meta0, route=route or "memory")
+                b = ob[route]
+                try:
+                    rr = rt if not route else through_files(ctx, rt, "t")
+                    o = observe(rr, perm)
+                except Exception as e:
+                    refused(kind, rcid, meta, route, e); continue
+                if route:
+                    add("c13_store_case %s %s" % (fq.qmat(count_rows(rt)), fq.qmat(count_rows(rr))), rcid, meta, None, "twin")
+                if tr == "centres":
+                    # patches relabelled: totals, amplitudes and covariance equal; samples permute accordingly
+                    tb = [float(np.sum(nc.counts.counts[b_])) for cf in runs_b[route]["cross"] for nc in (cf.dd, cf.rd) for b_ in range(len(edges) - 1)]
+                    tt = [float(np.sum(nc.counts.counts[b_])) for cf in rr["cross"] for nc in (cf.dd, cf.rd) for b_ in range(len(edges) - 1)]
+                    add("c13_case true %s %s" % (fq.qlist(tb), fq.qlist(tt)), rcid, meta, "c13-relabel-changes-counts" + suffix,
+                        "relabelling patches changes the total pair counts")
+                    add(cmp_term("scaled", b["samp"], o["samp"]), rcid, meta, "c13-relabel-changes-samples" + suffix,
+                        "relabelling patches changes amplitudes / covariance or does not permute the jackknife samples accordingly")
+                elif kind == "weight":
+                    add(cmp_term("exact" if exact else "rounded", b["samp"], o["samp"]), rcid, meta, "c13-weight-scale-changes-amplitudes" + suffix,
+                        "multiplying all weights of one catalog by a positive constant changes the correlation amplitudes / jackknife samples / covariance")
+                    add(cmp_term("exact" if exact else "rounded", b["nz"], o["nz"]), rcid, meta, "c13-weight-scale-changes-nz" + suffix,
+                        "multiplying all weights of one catalog by a positive constant changes the redshift estimate")
+                else:
+                    sig = "c13-rotation-changes-counts" if kind == "rot" else "c13-row-order-changes-counts"
+                    add("c13_case true %s %s" % (fq.qlist(b["counts"]), fq.qlist(o["counts"])), rcid, meta, sig + suffix,
+                        "a rigid rotation / a row permutation of all catalogs changes the raw pair counts or weight sums")
+                    add(cmp_term("exact", b["samp"] + b["nz"], o["samp"] + o["nz"]), rcid, meta, sig.replace("counts", "amplitudes") + suffix,
+                        "a rigid rotation / a row permutation changes amplitudes, redshift estimate or covariance")
+                if not (finite(b["samp"]) and finite(b["nz"])):
+                    ctx.bump("cases_with_non_numbers_compared")
+                if kind == "weight" and not exact and (pattern(b["samp"]) != pattern(o["samp"]) or pattern(b["nz"]) != pattern(o["nz"])):
+                    ctx.bump("degenerate_sample_differs_after_inexact_factor")   # 0/0 in the base run, residual/0 or 0/residual in the twin
+            ctx.sample(dict(scenario=sc, transform=tr, unit=unit, npatch=npatch, base_weight_exponents=bexp), limit=4)
             cleanup(rt)
         cleanup(rb)
+    ctx.log("%d distinct terms for %d comparisons" % (len(terms), len(cases)))
     codes = ctx.shards("Cases_C13", HEADER, terms, shard=25)
-    for (cid, meta, sig, what), c in zip(metas, codes):
-        if c:
+    failing_file_case = {}
+    for i, cid, meta, sig, what in cases:
+        c = codes[i]
+        if c and sig is not None:
             ctx.fail(sig, "%s (code %d)" % (what, c), meta, case=cid)
+            if cid[-1] == "file":
+                failing_file_case.setdefault(cid[0], cid)
+    # what was read back against the model of the stored form: a correspondence, not the property itself
+    for i, cid, meta, sig, what in cases:
+        c = codes[i]
+        if c and sig is None:
+            case = failing_file_case.get(cid[0], cid) if what == "base" else cid
+            ctx.disagree("c13-stored-counts-differ-from-model", case,
+                         dict(meta, code=c, what="counts read back from CorrFunc.from_file are not the stored form (rows with a non-zero count) of what was written"))
